@@ -327,6 +327,19 @@ MUTANTS = [
         }""", new="", expect="V-codegen::Compiler::compile_unary_op::temporaries_released"),
     dict(name="codegen_binary_pipe_sent_to_logic_op", kind="break", prop="C06", units=["V-codegen"], file="crates/bytecode/src/compiler.rs",
          old="            And | Or => self.compile_logic_op(op, lhs, rhs, ctx),\n            Pipe => self.compile_piped_call(lhs, rhs, ctx),", new="            And | Or | Pipe => self.compile_logic_op(op, lhs, rhs, ctx),", expect="V-codegen::Compiler::compile_binary_op::only_and_or_get_here"),
+    dict(name="codegen_debug_f33_temporary_reported_to_a_caller_that_wants_nothing", kind="break", prop="C01", units=["V-codegen"], file="crates/bytecode/src/compiler.rs",
+         old="""                match ctx.result_register {
+                    ResultRegister::None => {
+                        // The register was only needed for the debug op
+                        if expression_result.is_temporary {
+                            self.pop_register()?;
+                        }
+                        CompileNodeOutput::none()
+                    }
+                    _ => expression_result,
+                }""", new="                expression_result", expect="V-codegen::Compiler::compile_node__debug_arm::"),
+    dict(name="codegen_debug_without_span", kind="break", prop="C12", units=["V-codegen"], file="crates/bytecode/src/compiler.rs",
+         old="                self.push_op(Debug, &[expression_register]);", new="                self.push_op_without_span(Debug, &[expression_register]);", expect="V-codegen::Compiler::compile_node__debug_arm::expression_then_the_debug_instruction"),
     dict(name="bytecursor_next_back_front_byte", kind="break", prop="C13", units=["V-bytecursor"], file="crates/runtime/src/types/iterator.rs",
          old="let result = (self.bytes)[self.end];", new="let result = (self.bytes)[self.index];", expect="V-bytecursor::ByteIterator::next_back::yields_back_position"),
     dict(name="bytecursor_next_reads_after_advance", kind="break", prop="C13", units=["V-bytecursor"], file="crates/runtime/src/types/iterator.rs",
